@@ -629,3 +629,11 @@ fire("c14-nontrainable-unwrap-array-like-filter", "C14", "flowjax/wrappers.py",
      "        differentiable, static = eqx.partition(self.tree, eqx.is_inexact_array)\n        return eqx.combine(lax.stop_gradient(differentiable), static)",
      "        differentiable, static = eqx.partition(self.tree, eqx.is_array_like)\n        return eqx.combine(lax.stop_gradient(differentiable), static)",
      "C14.unwrap-static")
+
+# ------------------------------------------------------------------------------ round 8 rules
+fire("c14-concatenate-split-points-as-arrays", "C14", B + "concatenate.py",
+     "        self.split_idxs = tuple(accumulate([s[axis] for s in shapes[:-1]]))",
+     "        self.split_idxs = tuple(jnp.cumsum(jnp.asarray([s[axis] for s in shapes]))[:-1])", "C14.static-fields")
+fire("c02-partial-vectorised-child-logdet", "C02", B + "utils.py",
+     "        y, log_det = self.bijection.transform_and_log_det(x[self.idxs], condition)",
+     "        y, log_det = self.bijection._vectorize.transform_and_log_det(x[self.idxs], condition)", "C02.scalar")
